@@ -499,7 +499,7 @@ void ref_on_line(const uint8_t *line, int len)
         struct refm *r = &M->c;
         memset(r, 0, sizeof *r);
         r->cmd = -1;
-        r->nonterm_left = (uint8_t)W.max_inv;
+        r->nonterm_left = (uint32_t)W.max_inv;
         /* strip CRs in place (the line buffer is ours); CR after the first other byte selects CRLF */
         uint8_t *s = I.line;
         int n = 0, seen = 0;
@@ -559,7 +559,7 @@ void ref_on_line(const uint8_t *line, int len)
                 finish_error(0);
                 return;
         }
-        r->cmd = (int16_t)cmd;
+        r->cmd = (int32_t)cmd;
         const struct wcmd *w = &W.cmd[cmd];
         if (have_args) {
                 int alen = n - i;
@@ -603,9 +603,9 @@ void ref_begin_event(int ev)
 {
         struct refm *r = &M->e;
         memset(r, 0, sizeof *r);
-        r->cmd = (int16_t)W.ev[ev].cmd;
+        r->cmd = (int32_t)W.ev[ev].cmd;
         r->type = (uint8_t)W.ev[ev].type;
-        r->nonterm_left = (uint8_t)W.max_inv;
+        r->nonterm_left = (uint32_t)W.max_inv;
         if (W.ev[ev].type == CAT_CMD_TYPE_READ) begin_read_format(1);
         else begin_test_format(1);
 }
